@@ -295,10 +295,10 @@ class Generation:
             n = int(fault.get('lines', 1500))
             if fault.get('binary'):
                 import builtins
-                junk = b'native crash report \xff\xfe\x80 caf\xe9\n' * n
+                junk = b'native crash report \xff\xfe\x80 caf\xe9 100%% %s\n' * n
                 pre = pickle.dumps((None, builtins.eval, ("__import__('os').write(2, %r)" % (junk,),), {}), 4)
             else:
-                pre = pickle.dumps((None, functions._test_print, (None,), {'stderr': ('stderr line of a dying helper\n' * n)}), 4)
+                pre = pickle.dumps((None, functions._test_print, (None,), {'stderr': ('stderr line of a dying helper: heap usage 93% of %s, %d objects\n' * n)}), 4)
             self._real_roundtrip(pre)
 
         # keep the model of the helper-side table (only for requests that are delivered)
